@@ -336,13 +336,22 @@ func (h *History) misbehaviorFor(height int64) []types.Misbehavior {
 	if hostile {
 		p = 6
 	}
+	if h.Cfg.Profile == "evidence" {
+		p = 3
+	}
 	if h.Rng.IntN(p) != 0 {
 		return nil
 	}
 	var out []types.Misbehavior
 	n := 1 + h.Rng.IntN(2)
 	for i := 0; i < n; i++ {
-		evH := height - 1 - h.Rng.Int64N(min(height-1, 4))
+		// Infraction heights up to 4 blocks back, and at odd heights up to 14 blocks back: old
+		// enough to lie in an earlier epoch and below what pruning replicas still hold.
+		maxAge := int64(4)
+		if height%2 == 1 {
+			maxAge = 14
+		}
+		evH := height - 1 - h.Rng.Int64N(min(height-1, maxAge))
 		if evH < 1 {
 			evH = 1
 		}
